@@ -461,6 +461,8 @@ def seq_env(stmts, upto=None, env=None, keep=()):
                 env[t.id] = ast.Subscript(value=copy.deepcopy(v), slice=ast.Constant(value=i), ctx=ast.Load())
         elif isinstance(s, ast.AnnAssign) and isinstance(s.target, ast.Name) and s.value is not None:
             env[s.target.id] = _SubstEnv(env).visit(copy.deepcopy(s.value))
+        elif isinstance(s, ast.AugAssign) and isinstance(s.target, ast.Name) and s.target.id in env:
+            env[s.target.id] = ast.BinOp(left=env[s.target.id], op=s.op, right=_SubstEnv(env).visit(copy.deepcopy(s.value)))
         else:
             for n in stored_names(s):
                 env.pop(n, None)
